@@ -3,8 +3,11 @@ CONSTANTS
   Clients = {"c1", "c2"}
   Ids = {"s1", "s2"}
   MaxCalls = 3
-  Locked = FALSE
+  MapsLocked = FALSE
+  SessLocked = FALSE
+  OldDelete = TRUE
   StepGuard = TRUE
   NilGuard = TRUE
+  WithClose = FALSE
   defaultInitValue = 0
-INVARIANTS NoConflict_report
+INVARIANTS NoConflict_state
